@@ -3135,6 +3135,8 @@ class TypeBlocks(ContainerOperand):
             return False
         if compare_dtype and self._dtypes != other._dtypes: # these are lists
             return False
+        if not self._blocks and not other._blocks:
+            return True # same shape and no blocks: nothing to compare
 
         # NOTE: TypeBlocks handles array operations that return Boolean
         try:
